@@ -46,6 +46,25 @@ CHECKS.update({
         technique="property-based testing: rapid stateful histories with forced GC, file-existence invariant over a journaled file system"),
 })
 
+CHECKS.update({
+    "C03": dict(level="exploration", design="DESIGN.md section 4 C03",
+        text="A real operator.Operator (DKV tuned to a memtable of a few hundred bytes through the verif hooks so that flush and compaction run underneath) is fed generated keyed events that carry the script the reference handler executes: puts/deletes over adversarial namespaces, entry keys and subject keys in prefix relation, with batch sizes 1..6, time-out flushes, checkpoints and restores. On every ProcessEventBatch the supplied KeyState of every key is compared with a shadow map built from the mutations returned so far.",
+        note="The handler is a pure function of the event values. Storage is an in-memory FileSystem substituted through the dkv.options hook. A stopped operator models a dead process (its objects are kept reachable so no cleanup runs).",
+        technique="property-based testing: rapid generated event scripts through the real operator vs a shadow-map reference handler"),
+    "C10": dict(level="exploration", design="DESIGN.md section 4 C10",
+        text="(a) TimerRegistry + TimerStore on a real small DKV with cache sizes from one byte to unbounded: generated SetTimer / AdvanceWatermark / checkpoint+restore sequences against a set model; each advance must fire exactly the due timers once, in order, and a final drain must leave nothing. (b) The same through the real Operator with the cache shrunk by a verif hook; the reference handler rejects phantom, duplicate and early firings and the harness rejects due timers left pending after a flush.",
+        note="Tie order is free; a timer set at or before the current minimum watermark is a documented no-op.",
+        technique="property-based testing: rapid stateful sequences vs a pending-timer set model"),
+    "C11": dict(level="exploration", design="DESIGN.md section 4 C11",
+        text="(a) wmark.Watermarker over arbitrary timestamp sequences: monotone, strictly below the maximum, exactly max-1ns. (b) Real operators with 1..4 upstream ids under generated interleavings of events, watermarks, flushes and checkpoints: every ProcessEventBatch request must carry the minimum of the latest upstream watermarks and no timer beyond it may fire. The runner-side clause is covered in the runner-level harness (C04/C16) when built.",
+        note="Before the first watermark message the operator reports year 1, treated as the epoch.",
+        technique="property-based testing: rapid histories vs a min-of-upstreams model"),
+    "C06": dict(level="exploration", design="DESIGN.md section 4 C06",
+        text="Generated operator histories (state, timers, watermarks, tiny DKV) with 1..4 operators, checkpointed and restored through the real jobs.Assembly.Deploy into 1..4 fresh operators with the operator checkpoints recorded in a drawn permutation, then probed and continued, with further rescales. Plus a direct differential of AssignRanges against a quadratic overlap scan. One genuine defect (re-merging tables that hold foreign keys after a second change of the operator count) is an open known finding and excluded by construction.",
+        note="The harness plays the source runners and routes by the reference key-group arithmetic. Only visibility through the handler API is asserted.",
+        technique="property-based testing: rapid histories through real operators and Assembly.Deploy vs shadow-map/timer-set model; differential for AssignRanges"),
+})
+
 PENDING_REASON = "check not built yet in this session; design in DESIGN.md section 4 (no other technique is substituted)"
 
 
